@@ -133,10 +133,10 @@ fn field_helpers(recvs: &[Recv], scope: &str, f: &Field, k: usize, out: &mut Str
             )),
             Post::None => {}
         }
-    } else if f.flatten && f.post == Post::Map {
+    } else if (f.flatten || matches!(f.ty, Ty::Recv(_) | Ty::BoxRecv(_))) && f.post == Post::Map {
         // a transform on the flatten member: wraps the nested receiver's anchor, visible in the dump
         out.push_str(&format!("fn map_{}_{}{gp}(v: {full_ty}) -> {full_ty} {{ flatten_mark(v) }}\n", scope, hn));
-    } else if f.flatten && f.post == Post::AndThen {
+    } else if (f.flatten || matches!(f.ty, Ty::Recv(_) | Ty::BoxRecv(_))) && f.post == Post::AndThen {
         out.push_str(&format!(
             "fn andthen_{}_{}(v: {full_ty}) -> ::darling::Result<{full_ty}> {{ if flatten_rejects(&v) {{ Err(::darling::Error::custom(\"rejected by flatten and_then\")) }} else {{ Ok(flatten_mark(v)) }} }}\n",
             scope, hn
@@ -453,6 +453,9 @@ pub fn emit_recv(recvs: &[Recv], r: &Recv, out: &mut String) {
                 VBody::Struct(fs) => format!("{name}::{} {{ {} }}", v0.rust, fs.iter().map(|f| format!("{}: ::core::default::Default::default()", f.rust)).collect::<Vec<_>>().join(", ")),
             };
             out.push_str(&format!("impl ::core::default::Default for {name} {{ fn default() -> Self {{ {zero} }} }}\n"));
+            if r.cdefault == Def::Func {
+                out.push_str(&format!("fn cdef_{}() -> {name} {{ ::core::default::Default::default() }}\n", r.id));
+            }
             if r.from_word {
                 out.push_str(&format!("fn fword_{}() -> ::darling::Result<{name}> {{ Ok(::core::default::Default::default()) }}\n", r.id));
             }
